@@ -313,6 +313,21 @@ def rule_g(ctx):
         sw = [s for s in it.calls("^" + ATOM + "swap$")]
         ok = len(sw) == 1 and any(x[0] == "const" and str(x[2]).endswith("SLEEPING") for x in it.origins(sw[0].args()[1], sw[0]))
         ctx.ob("taskset|taken-task-put-to-sleep", ok, "a task taken from the scheduled stack is marked sleeping (so that its next wake-up re-schedules it)", sw)
+    itd = ctx.body("<util::task_set::TaskIterator as std::ops::Drop>::drop")
+    if itd:
+        sts = [s for s in itd.calls("^" + ATOM + "(store|swap)$") if atomics.receiver_field(itd, s) == "next"]
+        lds = [s for s in itd.calls("^" + ATOM + "(load|swap)$") if atomics.receiver_field(itd, s) == "next"]
+        ok = len(sts) == 1 and len(lds) == 1 and itd.in_loop(sts[0]) and \
+            any(x[0] == "const" and str(x[2]).endswith("SLEEPING") for x in itd.origins(sts[0].args()[1], sts[0])) and \
+            len(itd.origins(sts[0].args()[1], sts[0])) == 1
+        if ok and sts[0] != lds[0]:
+            ok = itd.dominates(lds[0], sts[0])  # the link is read before it is overwritten
+        # the loop runs until the end-of-list marker
+        if ok:
+            lp = itd.innermost_loop(sts[0])
+            ok = lp is not None
+        ctx.ob("taskset|discarded-tasks-put-to-sleep", ok,
+               "every scheduled task that the iterator discards is marked sleeping (any other marker reads as 'already scheduled': its next wake-up would be swallowed), its link read first", sts + lds)
     rz = ctx.body(TS + "TaskSet::resize")
     if rz:
         aggs = list(rz.aggregates(adt=TS + "Task"))
